@@ -13,19 +13,25 @@ vars == <<l, seenS, seenF, seenC, seenConv, nx, lasthi, scanned>>
 Viol(sig, detail) == PrintT(<<"VIOL", sig, l, detail>>)
 Has(r, k) == k \in DOMAIN r
 
-\* the judged view: the header's for the C probe, the library's (LibLayout/Alias) for the Rust probe
-SizeOf(s) == IF SRC = "kernel" THEN StructSize[s] ELSE LibSize[s]
-FieldsOf(s) == IF SRC = "kernel" THEN Fields(s) ELSE LibFields(s)
-NameOf(s, f) == IF SRC = "kernel" THEN f ELSE LibName(s, f)
-RecOf(s, f) == IF SRC = "kernel" THEN FieldRec(s, f) ELSE LibFieldRec(s, f)
+\* the judged view: the header's for the C probe; for the Rust probe either the header's or the library's documented
+\* view (LibLayout/Alias): a library that moves to the newer layout of the installed header is as right as one that
+\* keeps the documented older form
+KName(s, f) == IF SRC = "kernel" THEN f ELSE LibName(s, f)
+SizeOK(s, n) == n = StructSize[s] \/ (SRC # "kernel" /\ n = LibSize[s])
+FieldOK(s, f, off, w) ==
+  LET k == KName(s, f) IN
+  \/ (k \in Fields(s) /\ FieldRec(s, k).off = off /\ FieldRec(s, k).w = w)
+  \/ (SRC # "kernel" /\ k \in LibFields(s) /\ LibFieldRec(s, k).off = off /\ LibFieldRec(s, k).w = w)
+KnownField(s, f) == KName(s, f) \in Fields(s) \/ (SRC # "kernel" /\ KName(s, f) \in LibFields(s))
 CheckSize(r) ==
   IF r.struct \notin Structs THEN (SRC = "kernel" \/ Viol("C13|struct|unknown|" \o r.struct, r))
-  ELSE r.size = SizeOf(r.struct) \/ Viol("C13|size|" \o r.struct, <<r.size, SizeOf(r.struct)>>)
+  ELSE SizeOK(r.struct, r.size) \/ Viol("C13|size|" \o r.struct, <<r.size, StructSize[r.struct], LibSize[r.struct]>>)
 CheckField(r) ==
   IF r.struct \notin Structs THEN TRUE
-  ELSE IF NameOf(r.struct, r.field) \notin FieldsOf(r.struct) THEN Viol("C13|field|unknown|" \o r.struct \o "." \o r.field, r)
-  ELSE LET t == RecOf(r.struct, NameOf(r.struct, r.field)) IN
-       (t.off = r.off /\ t.w = r.w) \/ Viol("C13|field|" \o r.struct \o "." \o r.field, <<[off |-> r.off, w |-> r.w], t>>)
+  ELSE IF ~KnownField(r.struct, r.field) THEN Viol("C13|field|unknown|" \o r.struct \o "." \o r.field, r)
+  ELSE FieldOK(r.struct, r.field, r.off, r.w)
+       \/ Viol("C13|field|" \o r.struct \o "." \o r.field, <<[off |-> r.off, w |-> r.w],
+                IF KName(r.struct, r.field) \in Fields(r.struct) THEN FieldRec(r.struct, KName(r.struct, r.field)) ELSE LibFieldRec(r.struct, KName(r.struct, r.field))>>)
 CheckConst(r) ==
   IF r.name \notin DOMAIN KConst THEN (SRC = "kernel" \/ Viol("C13|const|unknown|" \o r.name, r))
   ELSE r.val = KConst[r.name] \/ Viol("C13|const|" \o r.name, <<r.val, KConst[r.name]>>)
@@ -46,7 +52,11 @@ ReqS == IF SRC = "kernel" THEN Structs \ {"fuse_init_in_head", "fuse_init_in_tai
 ReqC == IF SRC = "kernel" THEN DOMAIN KConst \ Unpinned ELSE RequiredConsts
 CheckEnd ==
   /\ \A s \in ReqS : s \in seenS \/ Viol("C13|missing|struct|" \o s, s)
-  /\ \A s \in ReqS : \A f \in FieldsOf(s) : <<s, f>> \in seenF \/ Viol("C13|missing|field|" \o s \o "." \o f, f)
+  \* every field of the header's view, or every field of the library's documented view, was reported
+  /\ \A s \in ReqS :
+        LET seen == {f \in Fields(s) \cup LibFields(s) : <<s, f>> \in seenF} IN
+        (Fields(s) \subseteq seen \/ (SRC # "kernel" /\ LibFields(s) \subseteq seen))
+        \/ Viol("C13|missing|field|" \o s \o "." \o (CHOOSE f \in LibFields(s) : f \notin seen), LibFields(s) \ seen)
   /\ \A c \in ReqC : c \in seenC \/ Viol("C13|missing|const|" \o c, c)
   /\ IF SRC = "kernel" THEN TRUE ELSE
        /\ scanned \/ Viol("C13|opcode|scan-missing", lasthi)
@@ -69,7 +79,7 @@ Step ==
           [] r.e = "OpScan" -> TRUE
           [] OTHER -> Viol("C13|event|unknown", r)
      /\ seenS' = IF r.e = "Size" THEN seenS \cup {r.struct} ELSE seenS
-     /\ seenF' = IF r.e = "Field" THEN seenF \cup {<<r.struct, IF r.struct \in Structs THEN NameOf(r.struct, r.field) ELSE r.field>>} ELSE seenF
+     /\ seenF' = IF r.e = "Field" THEN seenF \cup {<<r.struct, IF r.struct \in Structs THEN KName(r.struct, r.field) ELSE r.field>>} ELSE seenF
      /\ seenC' = IF r.e = "Const" THEN seenC \cup {r.name} ELSE seenC
      /\ seenConv' = IF r.e = "Conv" THEN seenConv \cup {<<r.fn, r.out>>} ELSE seenConv
      /\ nx' = IF r.e = "OpRange" THEN (IF r.hi31 < 2147483647 THEN r.hi31 + 1 ELSE r.hi31) ELSE nx
